@@ -106,3 +106,175 @@ pub fn replay(v: &serde_json::Value) -> bool {
     let _ = v;
     !shape_bind(false).failures.is_empty()
 }
+
+// ---------------------------------------------------------------------------------------------------------------------
+// C14, transform clause for all four evaluator kinds
+
+/// test functions as (tree, f64 reference); smooth and well conditioned on the sampled region
+fn tfuncs() -> Vec<(&'static str, Tree, fn(f64, f64, f64) -> f64)> {
+    let (x, y, z) = (Tree::x(), Tree::y(), Tree::z());
+    vec![
+        ("x+2y+3z", x.clone() + y.clone() * 2.0 + z.clone() * 3.0, |x, y, z| x + 2.0 * y + 3.0 * z),
+        ("x*y+z", x.clone() * y.clone() + z.clone(), |x, y, z| x * y + z),
+        ("sqrt(x2+y2+z2)-1", (x.clone().square() + y.clone().square() + z.clone().square()).sqrt() - 1.0, |x, y, z| (x * x + y * y + z * z).sqrt() - 1.0),
+        ("z-only", z.clone() * 0.5 + 1.0, |_x, _y, z| z * 0.5 + 1.0),
+        ("x*x-y", x.clone().square() - y.clone(), |x, y, _z| x * x - y),
+    ]
+}
+
+fn tmats() -> Vec<(&'static str, Matrix4<f32>)> {
+    let mut v: Vec<(&'static str, Matrix4<f32>)> = vec![
+        ("identity", Matrix4::identity()),
+        ("translation", Matrix4::new_translation(&Vector3::new(1.0, -2.0, 0.5))),
+        ("scaling", Matrix4::new_nonuniform_scaling(&Vector3::new(2.0, 0.5, -1.0))),
+        ("rotation", Matrix4::from_euler_angles(0.3, -0.7, 1.1)),
+    ];
+    // projective: bottom row not (0,0,0,1)
+    let mut p = Matrix4::identity(); p[(3, 2)] = 0.3; v.push(("perspective-z (bottom-right 1)", p));
+    let mut p = Matrix4::new_translation(&Vector3::new(0.5, 0.25, -0.5)); p[(3, 0)] = 0.1; p[(3, 1)] = -0.2; v.push(("perspective-xy (bottom-right 1)", p));
+    let mut p = Matrix4::from_euler_angles(0.2, 0.1, -0.4); p[(3, 3)] = 2.0; v.push(("uniform w=2", p));
+    let mut p = Matrix4::new_nonuniform_scaling(&Vector3::new(1.5, 1.0, 0.75)); p[(3, 0)] = 0.05; p[(3, 2)] = -0.1; p[(3, 3)] = 1.5; p[(0, 3)] = 0.3; v.push(("general projective", p));
+    v
+}
+
+fn tmap(m: &Matrix4<f32>, x: f64, y: f64, z: f64) -> (f64, f64, f64) {
+    let r = |i: usize| m[(i, 0)] as f64 * x + m[(i, 1)] as f64 * y + m[(i, 2)] as f64 * z + m[(i, 3)] as f64;
+    let w = r(3);
+    (r(0) / w, r(1) / w, r(2) / w)
+}
+
+fn close(got: f32, want: f64, scale: f64) -> bool {
+    let g = got as f64;
+    (g - want).abs() <= 2e-4 * (1.0 + want.abs() + scale)
+}
+
+pub fn shape_transform(thorough: bool) -> Report {
+    use fidget_core::types::{Grad, Interval};
+    let mut r = Report::new("shape_transform");
+    let mut pts: Vec<(f32, f32, f32)> = vec![(1.0, 2.0, 3.0), (-0.5, 0.25, 1.5), (0.75, -1.25, -0.5), (0.0, 0.0, 0.0), (2.0, 1.0, -1.0)];
+    if thorough {
+        for i in 0..4 { for j in 0..4 { for k in 0..4 { pts.push((i as f32 * 0.6 - 0.9, j as f32 * 0.7 - 1.0, k as f32 * 0.5 - 0.8)); } } }
+    }
+    let funcs = tfuncs();
+    let mats = tmats();
+    for (fname, tree, fref) in &funcs {
+        let vm = VmShape::from(tree.clone());
+        let jit = JitShape::from(tree.clone());
+        for (mname, m) in &mats {
+            // reference values, gradient by central differences of f∘T in f64
+            let want: Vec<(f64, [f64; 3])> = pts.iter().map(|&(x, y, z)| {
+                let g = |x: f64, y: f64, z: f64| { let (a, b, c) = tmap(m, x, y, z); fref(a, b, c) };
+                let (x, y, z) = (x as f64, y as f64, z as f64);
+                let h = 1e-5;
+                (g(x, y, z), [(g(x + h, y, z) - g(x - h, y, z)) / (2.0 * h), (g(x, y + h, z) - g(x, y - h, z)) / (2.0 * h), (g(x, y, z + h) - g(x, y, z - h)) / (2.0 * h)])
+            }).collect();
+            let xs: Vec<f32> = pts.iter().map(|p| p.0).collect();
+            let ys: Vec<f32> = pts.iter().map(|p| p.1).collect();
+            let zs: Vec<f32> = pts.iter().map(|p| p.2).collect();
+            for backend in 0..2 {
+                let bn = if backend == 0 { "vm" } else { "jit" };
+                let sig = |kind: &str, i: usize| format!("transform:{kind}:{bn}:{fname}:{mname}:{i}");
+                // --- point
+                for (i, &(x, y, z)) in pts.iter().enumerate() {
+                    r.cases += 1;
+                    let got = if backend == 0 { let t = vm.ez_point_tape(); let mut e = VmShape::new_point_eval(); e.eval_with_transform(&t, x, y, z, m).map(|v| v.0).ok() }
+                              else { let t = jit.ez_point_tape(); let mut e = JitShape::new_point_eval(); e.eval_with_transform(&t, x, y, z, m).map(|v| v.0).ok() };
+                    match got {
+                        Some(v) if close(v, want[i].0, 0.0) => {}
+                        other => r.fail(sig("point", i), format!("[transform:point] {fname} with transform `{mname}` at ({x}, {y}, {z}) on the {bn} point evaluator gives {:?}, the function at the transformed position is {}", other, want[i].0), json!({"contract":"shape_transform"})),
+                    }
+                }
+                // --- interval: degenerate boxes must be close to the value; small boxes must contain the value at their corners and centre
+                for (i, &(x, y, z)) in pts.iter().enumerate() {
+                    for half in [0.0f32, 0.05] {
+                        r.cases += 1;
+                        let (ix, iy, iz) = (Interval::new(x - half, x + half), Interval::new(y - half, y + half), Interval::new(z - half, z + half));
+                        let got = if backend == 0 { let t = vm.ez_interval_tape(); let mut e = VmShape::new_interval_eval(); e.eval_with_transform(&t, ix, iy, iz, m).map(|v| v.0).ok() }
+                                  else { let t = jit.ez_interval_tape(); let mut e = JitShape::new_interval_eval(); e.eval_with_transform(&t, ix, iy, iz, m).map(|v| v.0).ok() };
+                        let Some(iv) = got else { r.fail(sig("interval", i), format!("[transform:interval] unexpected error"), json!({"contract":"shape_transform"})); continue; };
+                        if iv.lower().is_nan() || iv.upper().is_nan() { continue; } // NaN = whole line: encloses everything
+                        let slack = 2e-4 * (1.0 + want[i].0.abs());
+                        let mut ok = true;
+                        for (sx, sy, sz) in [(0.0f32, 0.0f32, 0.0f32), (1.0, 1.0, 1.0), (-1.0, -1.0, -1.0), (1.0, -1.0, 1.0), (-1.0, 1.0, -1.0)] {
+                            let (a, b, c) = tmap(m, (x + sx * half) as f64, (y + sy * half) as f64, (z + sz * half) as f64);
+                            let v = fref(a, b, c);
+                            if !(iv.lower() as f64 - slack <= v && v <= iv.upper() as f64 + slack) { ok = false; }
+                        }
+                        if half == 0.0 && !(close(iv.lower(), want[i].0, 0.0) && close(iv.upper(), want[i].0, 0.0)) { ok = false; }
+                        if !ok {
+                            r.fail(sig("interval", i), format!("[transform:interval] {fname} with transform `{mname}` on the box of half-width {half} around ({x}, {y}, {z}) on the {bn} interval evaluator gives [{}, {}], which does not match the function at the transformed position ({} at the centre)", iv.lower(), iv.upper(), want[i].0), json!({"contract":"shape_transform"}));
+                        }
+                    }
+                }
+                // --- float slice
+                {
+                    let got: Option<Vec<f32>> = if backend == 0 { let t = vm.ez_float_slice_tape(); let mut e = VmShape::new_float_slice_eval(); e.eval_with_transform(&t, &xs, &ys, &zs, m).map(|v| v.to_vec()).ok() }
+                                                else { let t = jit.ez_float_slice_tape(); let mut e = JitShape::new_float_slice_eval(); e.eval_with_transform(&t, &xs, &ys, &zs, m).map(|v| v.to_vec()).ok() };
+                    for i in 0..pts.len() {
+                        r.cases += 1;
+                        let v = got.as_ref().and_then(|g| g.get(i).copied());
+                        if !matches!(v, Some(v) if close(v, want[i].0, 0.0)) {
+                            r.fail(sig("float_slice", i), format!("[transform:float_slice] {fname} with transform `{mname}` at {:?} on the {bn} float-slice evaluator gives {:?}, the function at the transformed position is {}", pts[i], v, want[i].0), json!({"contract":"shape_transform"}));
+                        }
+                    }
+                }
+                // --- gradient slice: value and the three derivatives with respect to the untransformed position
+                {
+                    let gx: Vec<Grad> = xs.iter().map(|&v| Grad::new(v, 1.0, 0.0, 0.0)).collect();
+                    let gy: Vec<Grad> = ys.iter().map(|&v| Grad::new(v, 0.0, 1.0, 0.0)).collect();
+                    let gz: Vec<Grad> = zs.iter().map(|&v| Grad::new(v, 0.0, 0.0, 1.0)).collect();
+                    let got: Option<Vec<Grad>> = if backend == 0 { let t = vm.ez_grad_slice_tape(); let mut e = VmShape::new_grad_slice_eval(); e.eval_with_transform(&t, &gx, &gy, &gz, m).map(|v| v.to_vec()).ok() }
+                                                 else { let t = jit.ez_grad_slice_tape(); let mut e = JitShape::new_grad_slice_eval(); e.eval_with_transform(&t, &gx, &gy, &gz, m).map(|v| v.to_vec()).ok() };
+                    for i in 0..pts.len() {
+                        r.cases += 1;
+                        let g = got.as_ref().and_then(|g| g.get(i).copied());
+                        let scale = want[i].1.iter().fold(0.0f64, |a, b| a.max(b.abs()));
+                        let ok = match g {
+                            Some(g) => close(g.v, want[i].0, 0.0) && (0..3).all(|k| { let w = want[i].1[k]; !w.is_finite() || (g.d(k) as f64 - w).abs() <= 2e-3 * (1.0 + scale) }),
+                            None => false,
+                        };
+                        // the norm function is not differentiable at the image of the origin: skip non-finite references only
+                        if !ok && want[i].0.is_finite() && !(fname.starts_with("sqrt") && tmap(m, pts[i].0 as f64, pts[i].1 as f64, pts[i].2 as f64).0.hypot(tmap(m, pts[i].0 as f64, pts[i].1 as f64, pts[i].2 as f64).1) < 1e-3) {
+                            r.fail(sig("grad_slice", i), format!("[transform:grad_slice] {fname} with transform `{mname}` at {:?} on the {bn} gradient evaluator gives {:?}; value and derivatives of the function of the transformed position are {} and {:?}", pts[i], g.map(|g| (g.v, g.dx, g.dy, g.dz)), want[i].0, want[i].1), json!({"contract":"shape_transform"}));
+                        }
+                    }
+                }
+            }
+        }
+    }
+    r.space = format!("{} functions of (x, y, z) x {} transform matrices (identity, translation, non-uniform scaling, rotation, four projective matrices with a non-trivial bottom row) x {} positions x {{point, interval (degenerate and half-width 0.05 boxes), float-slice, gradient-slice}} evaluators x {{VM, JIT}}: value within 2e-4 relative of the f64 reference of the function at M·(x,y,z,1)/w, interval results contain the reference at the box corners and centre, gradients within 2e-3 of central differences of the composed function", funcs.len(), mats.len(), pts.len());
+    r.distinct = r.cases;
+    r.exhaustive = true;
+    r.sample(json!({"function":"x*y+z","transform":"perspective-z (bottom-right 1)","position":[1.0,2.0,3.0],"kind":"grad_slice"}));
+    r
+}
+
+pub fn replay_transform(v: &serde_json::Value) -> bool {
+    let _ = v;
+    !shape_transform(false).failures.is_empty()
+}
+
+// ---------------------------------------------------------------------------------------------------------------------
+// C10, Shape-level evaluator objects (stand-alone form of part (d) of `total`)
+pub fn shape_reuse(_thorough: bool) -> Report {
+    let mut r = Report::new("shape_reuse");
+    let prev = std::panic::take_hook();
+    std::panic::set_hook(Box::new(|_| {}));
+    let mut fails: Vec<(String, String, String)> = vec![];
+    let n = crate::c_total::shape_reuse(&mut |class: &str, sig: String, what: String| fails.push((class.to_string(), sig, what)));
+    std::panic::set_hook(prev);
+    for (class, sig, what) in fails {
+        r.fail(sig.clone(), format!("[shape-evaluator-reuse:{class}] {sig}: {what}"), json!({"contract":"shape_reuse"}));
+    }
+    r.cases = n;
+    r.distinct = n;
+    r.exhaustive = true;
+    r.space = "one ShapeBulkEval object per kind (float-slice, gradient-slice; VM) used on every ordered pair of (shape, sample count) from 6 shapes over different variable subsets ({x,y,z}, {x}, {y}, {x,z}, {}, {x,y}) x sample counts {10, 5, 0, 3, 1}: every call returns Ok with exactly the requested number of samples and bit-identical values to the closed form, and never panics".into();
+    r.sample(json!({"first":"x+y+z [10 samples]","then":"x*2 [5 samples]"}));
+    r
+}
+
+pub fn replay_reuse(v: &serde_json::Value) -> bool {
+    let _ = v;
+    !shape_reuse(false).failures.is_empty()
+}
